@@ -458,8 +458,9 @@ def configurations(cx):
     out.append(("SDMX1Settings(pows=[2,0,1],n1=1)", lambda: s.new(ST, "SDMX1Settings", pows_perm(), num(1))))
     out.append(("SDMX1Settings(pows=[1,2],n1=2)", lambda: s.new(ST, "SDMX1Settings", pows_sub(), num(2))))
     out.append(("SDMXG1Settings(pows=[2,0,1],nd=2,n1=1)", lambda: s.new(ST, "SDMXG1Settings", pows_perm(), num(2), num(1))))
-    sd = deg.Map({deg.Fraction(1): Tup([lst(num(2), num(0), num(1)), lst(num(3), num(2), num(1), num(2))]),
-                  deg.Fraction(2): Tup([lst(num(1), num(2)), lst(num(2), num(1), num(0), num(1))])})
+    # dict keys deliberately NOT in ascending order: insertion order and sorted order must not coincide
+    sd = deg.Map({deg.Fraction(2): Tup([lst(num(1), num(2)), lst(num(2), num(1), num(0), num(1))]),
+                  deg.Fraction(1): Tup([lst(num(2), num(0), num(1)), lst(num(3), num(2), num(1), num(2))])})
     out.append(("SDMXFullSettings", lambda: s.new(ST, "SDMXFullSettings", sd)))
     return out
 
@@ -620,8 +621,9 @@ def sdmx_plan_configs(cx):
     # pows are kept symbolic (distinct symbols), so a value can never coincide with an index; the term counts
     # differ from each other and from len(pows)
     P = lambda tag, n: lst(*[sym("%s%d" % (tag, i)) for i in range(n)])  # noqa: E731
-    full = lambda: deg.Map({deg.Fraction(1): Tup([P("p", 4), lst(num(4), num(2), num(3), num(1))]),  # noqa: E731
-                            deg.Fraction(2): Tup([P("q", 3), lst(num(2), num(1), num(3), num(2))])})
+    # ratio keys inserted in DESCENDING order: iteration over the dict and over sorted(ratios) must not coincide
+    full = lambda: deg.Map({deg.Fraction(2): Tup([P("q", 3), lst(num(2), num(1), num(3), num(2))]),  # noqa: E731
+                            deg.Fraction(1): Tup([P("p", 4), lst(num(4), num(2), num(3), num(1))])})
     one = lambda: deg.Map({deg.Fraction(1): Tup([P("p", 4), lst(num(4), num(2), num(3), num(1))])})  # noqa: E731
     return {
         "SADMPlan": [("SADMSettings(smooth)", lambda: s.new(ST, "SADMSettings", K("smooth")))],
@@ -1053,6 +1055,10 @@ def mutants(tree):
                expect="tol-deg"),
         Mutant("ds2 clamps sigma with ALPHA_TOL", ST, "    s = np.sqrt(sigma) / (b * rho ** (4.0 / 3) + 1e-16)\n    s2 = s**2",
                "    s = np.sqrt(np.maximum(sigma, ALPHA_TOL)) / (b * rho ** (4.0 / 3) + 1e-16)\n    s2 = s**2", expect="tol-deg"),
+        Mutant("SDMXFullSettings.get_feat_usps iterates the dict, the plan the sorted ratios", ST,
+               "        usps = []\n        for ratio in self.ratios:\n            for n, rdr in self.iterate_l0_terms(ratio):\n                usps.append(3 + n)\n        for ratio in self.ratios:",
+               "        usps = []\n        for ratio in self._settings:\n            for n, rdr in self.iterate_l0_terms(ratio):\n                usps.append(3 + n)\n        for ratio in self._settings:",
+               expect="sdmx-deg"),
         Mutant("LDA exchange rho^(4/3) -> rho^(1/3)", BL, "e[:] += LDA_FACTOR * rho ** (4.0 / 3)\n",
                "e[:] += LDA_FACTOR * rho ** (1.0 / 3)\n", expect="base-deg"),
         Mutant("PBE dedx[1] loses rho^(4/3)", BL, "dedx[1] += LDA_FACTOR * rho ** (4.0 / 3) * dfx",
